@@ -20,7 +20,7 @@ META = {
                         "capture switches symbolic (all 8 combinations decided by the solver); a user handler on the root logger and a non-default root "
                         "level set in before_all; one job with hook faults; Captured add/report kernel over symbolic texts",
                "thorough": "5 shapes, logging_clear_handlers on/off, nested execute_steps"},
-    "outside": ["bytes on a child process' real file descriptors (sentinel stream objects replace the real ones in-process)", "logging filters"],
+    "outside": ["bytes on a child process' real file descriptors (sentinel stream objects replace the real ones in-process)", "logging filters other than one mixed include/exclude filter"],
     "assumptions": ["sys.stdout/sys.stderr are replaced by sentinel StringIO objects before the run; identity is observed at every result event"],
     "leverage": "path space by solver (outcomes, capture switches, fault position); stream identity and marker placement checked concretely per path",
 }
@@ -79,6 +79,10 @@ def h_capture(sx):
         cfg.stderr_capture = sx.bool("stderr_capture")
         cfg.log_capture = sx.bool("log_capture")
         cfg.logging_clear_handlers = bool(p.get("clear_handlers"))
+        if p.get("log_filter"):
+            # --logging-filter with included AND excluded categories = "everything except the excluded ones"
+            # (the markers are logged on "harness", the filler records on "harness.fill")
+            cfg.logging_filter = p["log_filter"]
         pr = Probe(w)
         w.runner.formatters = [pr]
         befores, afters = [], []
@@ -192,11 +196,13 @@ def jobs(tier, seed):
         shapes.update({"3sc": ([F([S(2), S(2), S(1)])], {"out_dom": D, "stop": "sym"}),
                        "rule": ([F([S(1), R([S(1)], bg=1)], bg=1)], {"out_dom": D})})
     shapes["volume"] = ([F([S(2), S(1)])], {"out_dom": {"*": [0, 1]}, "undef": False, "log_volume": [0, 600, 1000]})
+    shapes["filter"] = ([F([S(2), S(1)])], {"out_dom": {"*": [0, 1]}, "undef": False, "log_volume": [0, 3]})
     shapes["nested"] = ([F([S(2), S(1)])], {"out_dom": {"*": [0, 1]}, "nested_steps": ["f0.i0.0", "f0.i1.0"], "undef": False})
     for name, (sh, opts) in shapes.items():
         for clear in ((False,) if tier == "quick" else (False, True)):
             js.append(Job("capture.%s.c%d" % (name, clear), "props.c18:h_capture",
-                          {"shapes": sh, "opts": opts, "fault": name == "hookfault", "clear_handlers": clear},
+                          {"shapes": sh, "opts": opts, "fault": name == "hookfault", "clear_handlers": clear,
+                           "log_filter": "other,-harness.fill" if name == "filter" else None},
                           reach=REACH if name != "hookfault" else REACH[:3], min_paths=20, cost=100, validate=60))
     js.append(Job("captured-kernel", "props.c18:h_captured_kernel", {}, reach=["C18.captured-add-loses-nothing"], min_paths=100, cost=50,
                   validate=50, closure=False))
